@@ -472,6 +472,18 @@ func Pure(p *core.Prog, r *core.Report) {
 				fold = true
 			}
 		})
+		// the string compared is the content of the value, not what its String() method prints
+		viaFmt := ""
+		if h := p.Func("convertEnumCaseStringKind"); h != nil {
+			core.EachInstr(h, func(i ssa.Instruction) {
+				if c, ok := i.(ssa.CallInstruction); ok {
+					if g := core.StaticCallee(c); g != nil && g.Pkg != nil && g.Pkg.Pkg.Path() == "fmt" {
+						viaFmt = p.Pos(c.Pos())
+					}
+				}
+			})
+		}
+		clause(viaFmt == "", "EnumCase:string-content", p.Pos(f.Pos()), "string-kinded values are compared by their content", "the string form of a string-kinded value is taken with fmt ("+viaFmt+"), which calls its String() method: for `type S string` with a String() method, S(\"a\") is a member of []S{\"b\"} whenever both print alike")
 		clause(fold, "EnumCase:fold", p.Pos(f.Pos()), "case-insensitive comparison through strings.EqualFold", "case folding for strings is gone")
 	}
 	// ---- UniqueItems -------------------------------------------------------------------------------
@@ -546,6 +558,19 @@ func Pure(p *core.Prog, r *core.Report) {
 				}
 			}
 		})
+		// "treating numerically equal numbers of different Go types as equal": reflect.DeepEqual alone is type
+		// sensitive; a numerically aware equality needs an equality predicate of the package
+		numAware := false
+		core.EachInstr(f, func(i ssa.Instruction) {
+			if c, ok := i.(*ssa.Call); ok {
+				if g := core.StaticCallee(c); g != nil && p.InSubject(g) && g.Signature.Results().Len() == 1 && g.Signature.Params().Len() == 2 {
+					if b, ok := g.Signature.Results().At(0).Type().Underlying().(*types.Basic); ok && b.Kind() == types.Bool {
+						numAware = true
+					}
+				}
+			}
+		})
+		clause(numAware, "UniqueItems:numeric-equality", p.Pos(f.Pos()), "elements are compared by an equality predicate of the package", "elements are compared by reflect.DeepEqual alone, which distinguishes Go types: [int64(1), float64(1)], [1, int64(1)], [[1],[1.0]] and [{a:int64 1},{a:float64 1}] are reported unique although Enum treats the same pairs as equal")
 		clause(onlyDE && nDup > 0 && allJoin, "UniqueItems:only-deep-equality", p.Pos(f.Pos()), "a duplicate is reported only on a true reflect.DeepEqual, and every element is appended to the list of earlier elements on every way round the loop", "UniqueItems decides some elements otherwise than by deep equality with all earlier elements (a fast path by identity / hashing, or elements that never join the list)")
 	}
 	// ---- Required / ReadOnly zero-value tests ----------------------------------------------------------
